@@ -58,6 +58,10 @@ func replayCorpus(t *testing.T, run *emit.Run) {
 			scriptedValsetRepublish(t, run)
 		case "batch-compass-redeploy":
 			scriptedRedeploy(t, run)
+		case "batch-two-chains-compass-redeploy":
+			runTwoChainHistory(t, run, true)
+		case "batch-released-key-before-next-snapshot":
+			scriptedReleasedKey(t, run)
 		case "batch-more-than-100-confirms":
 			runBigSetHistory(t, run, true)
 		default:
@@ -360,5 +364,36 @@ func scriptedValsetRepublish(t *testing.T, run *emit.Run) {
 	signAll()
 	h.opPublish(true) // same members and powers, new snapshot id
 	signAll()
+	h.finish()
+}
+
+// scriptedReleasedKey (seeded C06-E): validator 0 replaces its account (new key) while a batch is open; no valset snapshot
+// is built afterwards.  A confirmation signed with the RELEASED key and naming its address must be refused (the key
+// registered to the validator is the new one), one with the new key accepted.
+func scriptedReleasedKey(t *testing.T, run *emit.Run) {
+	h := newBHist(t, run)
+	h.opBuild()
+	n := h.nonces[0]
+	h.opRegister(0, 5)
+	old := h.prevAddr[0]
+	ver := h.vers[n][len(h.vers[n])-1]
+	sgb, err := types.NewEthereumSignature(ver.cp, h.keys[0])
+	if err != nil {
+		t.Fatal(err)
+	}
+	_, err = h.ms.ConfirmBatch(h.ctx, &types.MsgConfirmBatch{
+		Nonce: n, TokenContract: h.token.GetAddress().Hex(), EthSigner: h.keyAddr(0).Hex(), Orchestrator: h.accs[0].String(), Signature: hex.EncodeToString(sgb),
+		Metadata: valsettypes.MsgMetadata{Creator: h.accs[0].String(), Signers: []string{h.accs[0].String()}},
+	})
+	c := confirmClass(err)
+	if c == 50 {
+		t.Fatalf("ConfirmBatch: %v", err)
+	}
+	if err == nil {
+		h.regAt[fmt.Sprintf("%d/%d", n, 0)] = h.regAddr[0]
+	}
+	h.step(fmt.Sprintf("C06.BCnf 0 %d 1 %d (C06.COver %d %s)", n, idOf(h.addrIDs, old), idOf(h.addrIDs, old), ver.coq), c,
+		map[string]any{"op": "confirm", "validator": 0, "nonce": n, "eth_signer": h.keyAddr(0).Hex(), "signed": "current, with the key released by the re-registration", "signature": hex.EncodeToString(sgb)})
+	h.confirmAs(0, n, true, true)
 	h.finish()
 }
